@@ -344,12 +344,11 @@ def run(ctx, replay=None):
                             "models; invalid: max_dict_size/max_columns <= 1 must raise. non-trivial = some phrase counted twice")
     ctx.assumptions += [
         "random_state is an integer (None draws an unreproducible seed); max_columns < 2^31; code points, no surrogates",
-        "hashed estimators are not run under NUMBA_DISABLE_JIT=1 (make_hash with an np.int32 seed raises OverflowError there: D28, C10)",
         "with max_columns set, base_dictionary is given in hashed key space (the harness hashes the phrase keys with make_hash)",
     ]
     payload = payload_of(cases)
     small = [c for c in cases if not c.get("alpha")]
-    plain_only = [c for c in small if c["max_columns"] is None or c["kind"] == "invalid" and c["max_columns"] is None]
+    plain_only = small          # since the D28 repair the hashed estimator also runs interpreted
     with ThreadPoolExecutor(max_workers=3) as ex:
         f_jit = ex.submit(staggered, 0, "c16", payload)
         f_bc = ex.submit(staggered, 1, "c16", small, {"NUMBA_BOUNDSCHECK": "1"})
@@ -360,7 +359,7 @@ def run(ctx, replay=None):
         ctx.report("implementation child died (rc=%s) on case %d: %s" % (info["rc"], done, info["tail"][-400:]),
                    {"stage": "impl-crash", "case": cases[min(done, len(cases) - 1)]}, found_input=True)
         impl = (impl or []) + [None] * (len(cases) - done)
-    ctx.coverage["modes"] = {"compiled": len(cases), "NUMBA_BOUNDSCHECK=1": len(ibc or []), "NUMBA_DISABLE_JIT=1 (un-hashed only)": len(ipy or [])}
+    ctx.coverage["modes"] = {"compiled": len(cases), "NUMBA_BOUNDSCHECK=1": len(ibc or []), "NUMBA_DISABLE_JIT=1": len(ipy or [])}
     import time
     t_coq = time.time()
     exprs, where = [], []
